@@ -191,6 +191,38 @@ def check_case(ctx: Ctx, c: Dict[str, Any], k: int = 0) -> None:
                 break
     except Exception as ex:
         bad("flow_derivatives", f"mode=bspline with stride={strides} raised {type(ex).__name__}: {str(ex)[:100]}", exc=type(ex).__name__, mode="bspline", what="subset_stride")
+    # B-spline mode evaluated BETWEEN the coefficients (stride > 1): the spline of polynomial coefficients of degree <= 2 has the
+    # polynomial's second derivatives everywhere, and the spline of affine coefficients the affine map's first derivatives
+    for st in (2, 3, (3, 2, 2)[:D]):
+        try:
+            d2s = U.flow_derivatives(flow, order=2, mode="bspline", stride=st, spacing=sp)
+            d1s = U.flow_derivatives(flow, order=1, mode="bspline", stride=st, spacing=sp) if affine else {}
+        except Exception as ex:
+            bad("flow_derivatives", f"mode=bspline with stride={st} raised {type(ex).__name__}: {str(ex)[:100]}", exc=type(ex).__name__, mode="bspline", what="stride")
+            continue
+        done = False
+        for ci, j, l in itertools.product(range(D), range(D), range(D)):
+            key = f"d{CH[ci]}/d{AX[j]}{AX[l]}"
+            if key not in d2s:
+                continue
+            e = Hs[ci][j][l]
+            err = float((d2s[key][0].to(torch.float64) - e).abs().max())
+            if err > 2e-5 * max(1.0, abs(e)):
+                bad("flow_derivatives", f"{key} with mode=bspline, stride={st}: the spline of quadratic coefficients has second derivative {e} everywhere, got values off by {err:.3g}",
+                    mode="bspline", what="second_stride", mixed=j != l)
+                done = True
+                break
+        if affine and not done:
+            for ci, j in itertools.product(range(D), range(D)):
+                key = f"d{CH[ci]}/d{AX[j]}"
+                if key not in d1s:
+                    continue
+                e = float(analytic_first(n, h, fld, ci, j).reshape(-1)[0])
+                err = float((d1s[key][0].to(torch.float64) - e).abs().max())
+                if err > 2e-5 * max(1.0, abs(e)):
+                    bad("flow_derivatives", f"{key} with mode=bspline, stride={st}: the spline of affine coefficients has first derivative {e} everywhere, got values off by {err:.3g}",
+                        mode="bspline", what="first_stride")
+                    break
     # assembled quantities (default scheme) at the interior probes
     try:
         jd = U.jacobian_dict(flow, spacing=sp)
